@@ -19,7 +19,7 @@ import random
 
 HDR_STRUCTS = [
     {"name": "P", "attrs": [["n", "number"], ["b", "boolean"]]},
-    {"name": "R", "attrs": [["n", "number"], ["b", "boolean"], ["parts", "P[]"], ["m", "P"]]},
+    {"name": "R", "attrs": [["n", "number"], ["b", "boolean"], ["parts", "P[]"], ["m", "P"], ["x", "number"]]},
 ]
 
 # ---------------------------------------------------------------------------------------------
@@ -196,12 +196,14 @@ def max_depth(stmts, d=1):
 
 BOOL_PATHS = [["r", "b"], ["r", "m", "b"]]
 NUM_PATHS = [["r", "n"], ["r", "m", "n"]]
-NUM_LITS = [0, 1, 2, 3, -1, 0.5, 1.5, 2.25]
+NUM_LITS = [0, 1, 2, 3, -1, 0.5, 1.5, 2.25, -0.5, -2.25, 1000, 2.0]
+# r.n and r.m.n are also loop limits (small integers); r.x is free: floats, negatives, large integers
+EXPR_NUM_PATHS = NUM_PATHS + [["r", "x"], ["r", "x"]]
 
 
 def gen_num_expr(rng, depth):
     if depth <= 0 or rng.random() < 0.45:
-        return rng.choice(NUM_PATHS) if rng.random() < 0.6 else rng.choice(NUM_LITS)
+        return rng.choice(EXPR_NUM_PATHS) if rng.random() < 0.6 else rng.choice(NUM_LITS)
     op = rng.choice(["+", "-", "*", "+", "-"])
     e = {"binOp": op, "left": gen_num_expr(rng, depth - 1), "right": gen_num_expr(rng, depth - 1)}
     # always parenthesise nested arithmetic so that the reading does not depend on precedence (C13 has its own stream)
@@ -263,7 +265,8 @@ class Gen:
             return {"lit": "P", "json": {"n": rng.choice([0, 1, 2, 1.5]), "b": rng.random() < 0.5}}
         parts = [{"n": rng.choice([0, 1, 2]), "b": rng.random() < 0.5} for _ in range(rng.randint(0, 2))]
         return {"lit": "R", "json": {"n": rng.choice([0, 1, 2, 3]), "b": rng.random() < 0.5, "parts": parts,
-                                     "m": {"n": rng.choice([0, 1, 2]), "b": rng.random() < 0.5}}}
+                                     "m": {"n": rng.choice([0, 1, 2]), "b": rng.random() < 0.5},
+                                     "x": rng.choice([0, 2.25, -0.5, 1000, 1])}}
 
     def gen_param(self, ty, loopvars):
         """a parameter expression of type ty in a task that has r: R"""
@@ -390,6 +393,15 @@ class Gen:
             ctx = {"inloop": False, "loopvars": [], "ploop_ok": True}
             body = self.gen_block(self.depth if idx == 0 else max(1, self.depth - 1), callees, ctx)
             has_r = any(x == "r" for x, _ in self.sigs[n])
+            if idx > 0 and callees and has_r and self.ploops and rng.random() < (0.35 if self.focus and "ploop" in self.focus else 0.12):
+                # chains of calls whose first statement is a call / a parallel loop (the limit is the first thing the
+                # new task instance asks for)
+                if rng.random() < 0.5:
+                    v = self.fresh_loopvar([])
+                    lim = rng.choice([1, 2, 3]) if rng.random() < 0.3 else rng.choice(NUM_PATHS)
+                    body.insert(0, {"k": "ploop", "var": v, "limit": lim, "call": self.call(callees, [v])})
+                else:
+                    body.insert(0, self.call(callees, []))
             if not has_r:
                 body.insert(0, {"k": "svc", "name": "G", "ins": [], "outs": [["r", "R"]]})
             tasks.append({"name": n, "ins": self.sigs[n], "outs": [], "body": body})
